@@ -1,9 +1,10 @@
 //! svserde — C20: every advertised feature set builds (results handed in by c20.sh) and serialised
-//! state round-trips losslessly (JSON and CBOR), then continues to accumulate identically.
+//! state round-trips losslessly (JSON, CBOR and a compact non-self-describing format), then continues to accumulate identically.
 
 #[macro_use]
 #[path = "../../harness/src/engine.rs"]
 mod engine;
+mod compact;
 
 use engine::{Obs, PResult, Run, Tier};
 use proptest::prelude::*;
@@ -236,6 +237,11 @@ fn roundtrips<T: Serialize + DeserializeOwned + PartialEq + Debug>(what: &str, v
     let jv: Value = serde_json::to_value(v).map_err(|e| engine::Fail { sig: format!("C20/{what}/json_serialize"), msg: e.to_string() })?;
     let back_v: T = serde_json::from_value(jv).map_err(|e| engine::Fail { sig: format!("C20/{what}/json_deserialize"), msg: e.to_string() })?;
     ensure!(&back_v == v, format!("C20/{what}/json_value_roundtrip"), "{v:?} -> serde_json::Value -> {back_v:?}");
+    // and through a compact, non-self-describing format (data model of bincode / postcard; compact.rs): fields by
+    // position, variants by index, nothing skipped, nothing inspected
+    let bytes = compact::to_bytes(v).map_err(|e| engine::Fail { sig: format!("C20/{what}/compact_serialize"), msg: format!("{e} (value {v:?})") })?;
+    let back_b: T = compact::from_bytes(&bytes).map_err(|e| engine::Fail { sig: format!("C20/{what}/compact_deserialize"), msg: format!("{e} ({} bytes written for {v:?})", bytes.len()) })?;
+    ensure!(&back_b == v && format!("{back_b:?}") == format!("{v:?}"), format!("C20/{what}/compact/not_equal"), "restored {back_b:?} != original {v:?} through the compact format");
     Ok((back_j, back_c))
 }
 
